@@ -7,18 +7,20 @@ structure St where
   queue : List Nat := []      -- waiting pipelines
 deriving Repr, Inhabited
 
+/-- the operators handed to one container: all assignable ones, or the first ready one when containers hold one operator -/
+def opsFor (w : World) (multi : Bool) (pid : Nat) : List Nat :=
+  if multi then w.getOps pid assignable false else (w.getOps pid assignable true).take 1
+
 /-- the inner `while s.waiting_queue:` for one pool with free amounts `cpu`, `ram` -/
 def pop (w : World) (multi : Bool) (pool : Nat) (cpu ram : Nat) :
     List Nat → List Nat → Except SErr (World × List Nat × List Nat × Option Asg)
   | [], req => .ok (w, [], req, none)
   | pid :: rest, req =>
     if w.successful pid || w.hasFailures pid then pop w multi pool cpu ram rest req
-    else
-      let opl := if multi then w.getOps pid assignable false else (w.getOps pid assignable true).take 1
-      if opl.isEmpty then pop w multi pool cpu ram rest (req ++ [pid])
-      else match mkA w opl cpu ram (w.prioOf pid) pool with
-        | .error e => .error e
-        | .ok (w', a) => .ok (w', rest, req ++ [pid], some a)
+    else if (opsFor w multi pid).isEmpty then pop w multi pool cpu ram rest (req ++ [pid])
+    else match mkA w (opsFor w multi pid) cpu ram (w.prioOf pid) pool with
+      | .error e => .error e
+      | .ok (w', a) => .ok (w', rest, req ++ [pid], some a)
 
 /-- the loop over pools -/
 def pools (multi : Bool) : World → List (Nat × Pool) → List Nat → List Nat → List Asg →
